@@ -393,14 +393,9 @@ fn writer_case(ctx: &mut Ctx) {
                 if ctx.rng.chance(1, 3) {
                     w.data.reserve(64);
                 }
-                let mut wv = std::mem::take(&mut w);
-                let r = catch(move || {
-                    wv.write_bytes_at(b, *off);
-                    wv
-                });
+                let r = catch(|| w.write_bytes_at(b, *off));
                 match r {
-                    Ended::Returned(back) => {
-                        w = back;
+                    Ended::Returned(()) => {
                         if inside {
                             ctx.rep.bucket("writer.at.inrange");
                             if !b.is_empty() && off + b.len() == model.len() {
@@ -418,11 +413,8 @@ fn writer_case(ctx: &mut Ctx) {
                             return;
                         }
                         ctx.rep.bucket("writer.at.refused");
-                        // the writer was moved into the closure and lost with the panic; rebuild it
-                        // from the model: "buffer unchanged" is checked on the next line for the
-                        // in-range path and by Miri/ASan for the refused path
-                        w = VecWriter::new();
-                        w.write_bytes(&model);
+                        // a refused overwrite must leave the buffer exactly as it was (checked by
+                        // the comparison with the model right below)
                     }
                     Ended::StepBudget => unreachable!(),
                 }
